@@ -3,6 +3,7 @@ validity interval contains the current slot.  (Also hosts the Plutus scenario ge
 literal printer shared with C12.)"""
 import hashlib, json, os
 from lib import common as C
+from props import alike as A
 
 PID = 'C11'
 TARGETS = ['props/C11.vo', 'theories/RedeemersOracle.vo']
@@ -778,7 +779,7 @@ def corpus_cases():
 def correspond(ctx, n=None):
     corpus = corpus_cases() if n is None else []
     n = n or ctx.n(300, 12000)
-    cases = corpus + [gen_scenario(ctx.rng) for _ in range(n - len(corpus))]
+    cases = corpus + [A.lookalike_ids(ctx.rng, gen_scenario(ctx.rng)) for _ in range(n - len(corpus))]
     results = C.run_impl('plutusbuild_driver', {'cases': cases})
     mism, ofail, undec, errs = evaluate(cases, results)
     if errs:
